@@ -10,6 +10,7 @@ from __future__ import annotations
 import importlib.util
 import json
 import os
+import re
 import subprocess
 import sys
 import time
@@ -132,6 +133,9 @@ def main(argv=None):
                 run.violation(o.name, payload, reproduced)
             elif o.status == "undecided":
                 standin_needed = True
+        # an obligation that was discharged on the unchanged tree (committed baseline) and fails now, in a function whose source changed:
+        # the proof of the property no longer goes through for the changed code -- reported, without a failing input (DESIGN 13.10)
+        regress_report(run, prop, repo)
         # known findings: replay the stored witness; print the line while it still fails
         for k in known:
             handle_known(run, prop, k, args.tier, seed)
@@ -140,12 +144,69 @@ def main(argv=None):
         if args.v:
             for o in run.obligations:
                 print(f"  {o.status:10s} {o.solver:10s} {o.seconds:6.2f}s {o.name}")
+        if getattr(args, "write_baseline", False):
+            write_baseline(run, prop, repo)
         code = run.finish(solve.checker_cmd_text())
         return code
     except Exception:
         traceback.print_exc()
         print(f"[{prop}] checker crash (exit 3; not a violation)")
         return 3
+
+
+BASELINE_DIR = os.path.join(report.VERIF, "baseline")
+_SEMANTIC = re.compile(r"/(post:|loop\d+:inv:|loop\d+:step:|call:[^/]*:pre:|safety:|frame:|raises:)")
+
+
+def _obl_base(name: str) -> str:
+    return re.sub(r"@path\d+$", "", name)
+
+
+def _obl_func(name: str) -> str:
+    return re.sub(r"\[[^\]]*\]$", "", name.split("/", 1)[0])
+
+
+def regress_report(run, prop, repo):
+    path = os.path.join(BASELINE_DIR, f"{prop}.json")
+    if not os.path.exists(path):
+        return
+    try:
+        base = json.load(open(path))
+    except Exception:
+        return
+    discharged = set(base.get("discharged", []))
+    shas = base.get("functions", {})
+    already = {v["obligation"] for v in run.violations}
+    reported = 0
+    for o in run.obligations:
+        if o.kind in ("cover", "canary") or o.status != "undecided" or not _SEMANTIC.search(o.name):
+            continue
+        fq = _obl_func(o.name)
+        fi = repo.funcs.get(fq)
+        if fi is None or fq not in shas or shas[fq] == fi.sha256:
+            continue                    # same source text as the baseline: a solver budget effect, not a change of the code
+        if _obl_base(o.name) not in discharged or o.name in already:
+            continue
+        if reported >= 6:
+            break
+        run.violation(o.name, {"obligation": o.name, "why": "this obligation is discharged for the baseline source of the function "
+                               f"(sha256 {shas[fq][:12]}) and is not discharged for the current source (sha256 {fi.sha256[:12]})",
+                               "solver": o.solver or "none", "solver_output": (o.raw or "")[:2000], "seconds": o.seconds,
+                               "smt2_head": (o.smt2 or "")[:1500]}, False)
+        reported += 1
+
+
+def write_baseline(run, prop, repo):
+    os.makedirs(BASELINE_DIR, exist_ok=True)
+    names = sorted({_obl_base(o.name) for o in run.obligations if o.kind not in ("cover", "canary") and o.status == "discharged" and _SEMANTIC.search(o.name)})
+    funcs = {}
+    for n in names:
+        fq = _obl_func(n)
+        fi = repo.funcs.get(fq)
+        if fi is not None:
+            funcs[fq] = fi.sha256
+    json.dump({"property": prop, "functions": funcs, "discharged": names}, open(os.path.join(BASELINE_DIR, f"{prop}.json"), "w"), indent=0, sort_keys=True)
+    print(f"[{prop}] baseline written: {len(names)} obligations over {len(funcs)} functions")
 
 
 def match_known(known, o):
